@@ -434,6 +434,23 @@ def apply_op(obj, model, op, arg):
             raise AssertionError("copy differs: " + why)
         if not (c == obj and obj == c):
             raise AssertionError("copy is not equal to its original")
+        # equality must see every component, from either side (an object that lost / gained its box, its bonds, an
+        # annotation, or differs in one coordinate is a different object)
+        variants = []
+        d = obj.copy()
+        d.box = None if obj.box is not None else (np.array([np.eye(3)] * model["depth"]) if is_stack else np.eye(3))
+        variants.append(("box present / absent", d))
+        if obj.box is not None:
+            d = obj.copy(); d.box = d.box + 1.0; variants.append(("box values", d))
+        if obj.bonds is not None:
+            d = obj.copy(); d.bonds = None; variants.append(("bonds present / absent", d))
+        if n:
+            d = obj.copy(); d.coord[..., n - 1, 2] += 1.0; variants.append(("last coordinate", d))
+            d = obj.copy(); d.res_id[n - 1] += 1; variants.append(("res_id", d))
+        d = obj.copy(); d.set_annotation("only_variant", np.zeros(n, dtype=int)); variants.append(("extra annotation category", d))
+        for what, d in variants:
+            if (d == obj) or (obj == d):
+                raise AssertionError(f"objects that differ in {what} compare equal (d == obj: {d == obj}, obj == d: {obj == d})")
         if n:
             c.coord[..., 0, 0] = -1.0
             c.res_id[0] = 999
